@@ -99,7 +99,7 @@ func (m *c12mon) Check(s *sim.Sim, st *sim.Step) []*sim.Violation {
 	}
 	if strings.HasSuffix(flow, "_validate") && a.Kind == flow {
 		kind := strings.SplitN(flow, "_", 2)[0]
-		U := subjectPID(rec.SessIn, kind)
+		U := subjectOf(s, rec, kind)
 		ac := s.AcctByPID(U)
 		accepted := U != "" && sim.SessPutAny(rec, "uid", U) && sim.SessPutAny(rec, "twofactor", kind)
 		if ac != nil && a.Secret2 != "" {
@@ -178,7 +178,7 @@ func (m *c12mon) Sig(s *sim.Sim, st *sim.Step) string {
 	}
 	pid := a.PID
 	if pid == "" {
-		pid = subjectPID(rec.SessIn, strings.SplitN(a.Kind, "_", 2)[0])
+		pid = subjectOf(s, rec, strings.SplitN(a.Kind, "_", 2)[0])
 	}
 	n := 0
 	if u := rec.Before.Users[pid]; u != nil {
